@@ -20,14 +20,17 @@ META = {
                    'interpreted (E-SEQ, typed, brokers and compareRulesBeforeYear / priorYearOfRule through their bodies) on '
                    'abstract policies of 0..3 rules: which FROM years count as "before", and that the result maximises '
                    '(min(TO, year-1), month); _get_anchor_rule interpreted on policies of two and three rules in every order '
-                   'with SAVE 0 and SAVE 1:00 rules carrying different letters.',
+                   'with SAVE 0 and SAVE 1:00 rules carrying different letters; BasicZoneProcessor and ExtendedZoneProcessor interpreted in full '
+                   '(E-SEQ, typed, acv/rules_C04c.py) on model zones compiled by the interpreted compiler for both scopes (F) and on the shipped '
+                   'tables of every basic zone that changes era, around each such New Year (G): identical offset, DST offset and abbreviation.',
     'decided': 'the stated data preconditions of BasicZoneProcessor hold for every shipped basic zone and year; the basic '
                'cache never needs more than kMaxCacheEntries slots; what the compiler emits in basic scope for the feature source meets the '
                'same preconditions (a basic-only filter that is skipped, mis-scoped, weakened or whose result is dropped lets a feature zone through); names(zonedb) is a subset of names(zonedbx) with identical recorded era/rule lines and TZ version; '
                'every stored basic transition pairs the era of its label year with the latest rule before the instant it stands for '
-               '(for every shipped zone and year); anchor rules carry a standard-time letter',
-    'not_decided': 'that the preconditions are sufficient, i.e. the basic algorithm itself against zic; equality of the answers '
-                   'of the two processors at every instant',
+               '(for every shipped zone and year); anchor rules carry a standard-time letter; on the model zones and around every era change of the '
+               'shipped basic zones the two processors, interpreted in full, give identical answers',
+    'not_decided': 'the basic algorithm against zic (no zic in the repository); equality of the answers of the two processors at instants '
+                   'outside the stated families (away from era changes on shipped zones; zones unlike the model zones)',
     'assumptions': ['clang 14 parser', 'CPython ast', 'calendar resolution of ON expressions by datetime (checker oracle)'],
 }
 
